@@ -294,6 +294,16 @@ PROBES = {
         {"a.xml": '<r><c id="P1Y"><a>x</a></c></r>', "b.xml": "<r><c/></r>"},
         {"a.xml": '<r><c id="P1Y"><a>x</a></c></r>', "b.xml": '<r><c id="P1D"><a>y</a></c></r>'},
     ),
+    # optional children scattered over occurrences, none of which is complete
+    "C13/merged-field-order-contradicts-an-occurrence": (
+        {"a.xml": "<note>" + "".join("<node>" + "".join(f"<{n}>1</{n}>" for n in names) + "</node>" for names in (["entry", "data", "tail", "delta"], ["entry", "data", "delta", "e0"], ["entry", "tail", "kind", "delta", "e0"])) + "</note>"},
+        {"a.xml": "<note>" + "".join("<node>" + "".join(f"<{n}>1</{n}>" for n in names) + "</node>" for names in (["entry", "data", "tail", "delta"], ["entry", "data", "delta", "e0"], ["entry", "tail", "kind", "delta", "e0"], ["entry", "data", "tail", "kind", "delta", "e0"])) + "</note>"},
+    ),
+    # interleaved repetition shown only by a later / smaller occurrence
+    "C13/interleaving-lost-when-first-occurrence-has-one-repetition": (
+        {"a.xml": "<r><row>1</row><entry>x</entry></r>", "b.xml": "<r><row>1</row><entry>x</entry><row>2</row><entry>y</entry></r>"},
+        {"a.xml": "<r><row>1</row><entry>x</entry><row>2</row><entry>y</entry></r>"},
+    ),
     # the same split for a leaf whose attribute is optional, inside mixed content: the attributed occurrence loses its
     # attribute and value and swallows the following text
     "C13/leaf-with-optional-attribute-in-mixed-content": (
